@@ -910,6 +910,7 @@ type regContract struct {
 	TypeName  string
 	Enabled   string
 	Name      string
+	Inits     [][2]string // fields the registered object is created with: (field, expression); constructor arguments as ("#i", expression)
 }
 
 func registeredContracts(cpkg *pkgInfo) []regContract {
@@ -977,8 +978,20 @@ func registeredContracts(cpkg *pkgInfo) []regContract {
 				switch v := kv.Value.(type) {
 				case *ast.UnaryExpr: // &contracts.T{}
 					c2, ok := v.X.(*ast.CompositeLit)
-					if !ok || v.Op != token.AND || len(c2.Elts) != 0 {
+					if !ok || v.Op != token.AND {
 						fatalf("surface: contract list: unsupported Contract value at %s", fset.Position(v.Pos()))
+					}
+					// a registered object created with fields set is recorded, not refused: the table says so
+					// (Model/Surface.registered_plain_b fails by name) and the search still runs
+					for k, e0 := range c2.Elts {
+						if kv2, ok := e0.(*ast.KeyValueExpr); ok {
+							rc.Inits = append(rc.Inits, [2]string{exprString(kv2.Key), renderExpr(kv2.Value)})
+						} else {
+							rc.Inits = append(rc.Inits, [2]string{fmt.Sprintf("#%d", k), renderExpr(e0)})
+						}
+					}
+					if len(rc.Inits) > 0 {
+						fmt.Fprintf(os.Stderr, "extract: surface: warning: registered contract object created with fields set at %s\n", fset.Position(v.Pos()))
 					}
 					sel, ok := c2.Type.(*ast.SelectorExpr)
 					if !ok || exprString(sel.X) != "contracts" {
@@ -1028,6 +1041,23 @@ func genSurface(coreDir string) {
 			v.b.WriteString(";\n   ")
 		}
 		fmt.Fprintf(&v.b, "(%s, %s, %s)", gstr(r.AddrConst), gstr(r.TypeName), gstr(r.Enabled))
+	}
+	v.b.WriteString("].\n\n")
+
+	v.b.WriteString("(* fields the registered (process-wide) contract objects are created with: (Go type, [(field, expression)]) *)\n")
+	v.b.WriteString("Definition contract_inits : list (string * list (string * string)) :=\n  [")
+	for i, r := range regs {
+		if i > 0 {
+			v.b.WriteString(";\n   ")
+		}
+		fmt.Fprintf(&v.b, "(%s, [", gstr(r.TypeName))
+		for k, kv := range r.Inits {
+			if k > 0 {
+				v.b.WriteString("; ")
+			}
+			fmt.Fprintf(&v.b, "(%s, %s)", gstr(kv[0]), gstr(kv[1]))
+		}
+		v.b.WriteString("])")
 	}
 	v.b.WriteString("].\n\n")
 
